@@ -108,13 +108,13 @@ type c05Case struct {
 	Reg []bool `json:"reg,omitempty"`
 }
 
-func (c c05Case) compile(i int) (*jsonata.Expr, *port.Outcome) {
+func (c c05Case) compile(i int, regVal string) (*jsonata.Expr, *port.Outcome) {
 	e, o := port.Compile(c.Texts[i])
 	if o != nil {
 		return nil, o
 	}
 	if i < len(c.Reg) && c.Reg[i] {
-		e.RegisterVars(map[string]interface{}{"reg": "R"})
+		e.RegisterVars(map[string]interface{}{"reg": regVal})
 		e.RegisterExts(map[string]jsonata.Extension{"regf": {Func: func(s string) string { return s + "!" }}})
 	}
 	return e, nil
@@ -130,12 +130,16 @@ type c05Machine struct {
 	gapped []bool                  // evaluated >= 2 times with something else in between
 	lastEv int
 	cur    int // expression of the step being executed
+	regVal []string
+	regGen int
 }
 
 func newC05Machine(c c05Case) (*c05Machine, string) {
 	m := &c05Machine{c: c, seen: map[string]port.Outcome{}, lastEv: -1}
+	m.regVal = make([]string, len(c.Texts))
 	for i := range c.Texts {
-		e, o := c.compile(i)
+		m.regVal[i] = "R"
+		e, o := c.compile(i, "R")
 		if o != nil {
 			return nil, "compile: " + o.String()
 		}
@@ -151,7 +155,7 @@ func newC05Machine(c c05Case) (*c05Machine, string) {
 func (m *c05Machine) observe(text string, multi bool, doc int, out port.Outcome, how string) string {
 	key := text + "\x00" + m.c.Docs[doc]
 	if m.cur < len(m.c.Reg) && m.c.Reg[m.cur] {
-		key += "\x00registered" // equal bindings are part of "the same evaluation"
+		key += "\x00registered:" + m.regVal[m.cur] // equal bindings are part of "the same evaluation"
 	}
 	first, ok := m.seen[key]
 	if !ok {
@@ -199,7 +203,7 @@ func (m *c05Machine) step(s c05Step) string {
 			return msg
 		}
 	case "fresh":
-		e, o := m.c.compile(s.Expr)
+		e, o := m.c.compile(s.Expr, m.regVal[s.Expr])
 		if o != nil {
 			return "re-compile failed: " + o.String()
 		}
@@ -214,6 +218,14 @@ func (m *c05Machine) step(s c05Step) string {
 		}
 	case "print":
 		_ = m.exprs[s.Expr].String()
+	case "rereg":
+		// the bindings of a long-lived Expr change between evaluations: later
+		// evaluations must equal those of a fresh Expr with the new bindings
+		if s.Expr < len(m.c.Reg) && m.c.Reg[s.Expr] {
+			m.regGen++
+			m.regVal[s.Expr] = fmt.Sprintf("R%d", m.regGen)
+			m.exprs[s.Expr].RegisterVars(map[string]interface{}{"reg": m.regVal[s.Expr]})
+		}
 	}
 	return m.invariant()
 }
@@ -356,6 +368,7 @@ func TestC05_Histories(t *testing.T) {
 			"eval2": do("eval"),
 			"fresh": do("fresh"),
 			"print": do("print"),
+			"rereg": do("rereg"),
 		})
 		nt := false
 		for i, g := range m.gapped {
